@@ -133,6 +133,12 @@ func (c18) Generate(r *sim.Rand, tier string) *sim.Scenario {
 	}
 	pOther := []float64{0.05, 0.2, 0.4}[r.Intn(3)]
 	pBad := []float64{0, 0.1, 0.3}[r.Intn(3)]
+	if r.Bool(0.4) {
+		sc.Cfg["reusebuf"] = 1
+	}
+	if r.Bool(0.5) {
+		sc.Cfg["reuseinit"] = 1
+	}
 	for calls := 0; calls < 400; calls++ {
 		var live []*focus
 		for _, f := range fs {
@@ -222,10 +228,41 @@ type pool18 struct {
 	r1n  int
 }
 
-func c18draw(st sim.Step) (t tensor.Tensor, err error, p pool18, random bool) {
+// c18draw issues one call. bufs, when non-nil, is the caller's set of shape
+// buffers, one per rank, refilled and passed again for every call (a caller
+// that loops over layer sizes with one slice).
+type initer interface {
+	Init(shape []int) (tensor.Tensor, error)
+}
+
+// objs, when non-nil, is the caller's set of initializer objects: one object
+// per configuration serves every call with that configuration (one initializer
+// for many layers) instead of a new object per call.
+func c18draw(st sim.Step, bufs map[int][]int, objs map[string]initer) (t tensor.Tensor, err error, p pool18, random bool) {
+	key := fmt.Sprint(st.Tag, st.F, st.B)
+	shared := func(in initer) initer {
+		if objs == nil {
+			return in
+		}
+		if c, ok := objs[key]; ok {
+			return c
+		}
+		objs[key] = in
+		return in
+	}
+
 	shape := cpI(st.I)
 	if shape == nil {
 		shape = []int{}
+	}
+	if bufs != nil && len(shape) > 0 {
+		b, ok := bufs[len(shape)]
+		if !ok {
+			b = make([]int, len(shape))
+			bufs[len(shape)] = b
+		}
+		copy(b, shape)
+		shape = b
 	}
 	f := func(i int) float64 {
 		if i < len(st.F) {
@@ -246,7 +283,7 @@ func c18draw(st sim.Step) (t tensor.Tensor, err error, p pool18, random bool) {
 				cf.Value = -12345
 			}
 		}
-		t, err = in.Init(shape)
+		t, err = shared(in).Init(shape)
 		return
 	case "uniform":
 		var in *initializers.Uniform
@@ -262,7 +299,7 @@ func c18draw(st sim.Step) (t tensor.Tensor, err error, p pool18, random bool) {
 			}
 		}
 		if err == nil {
-			t, err = in.Init(shape)
+			t, err = shared(in).Init(shape)
 		}
 		p.unif = true
 	case "normal":
@@ -279,7 +316,7 @@ func c18draw(st sim.Step) (t tensor.Tensor, err error, p pool18, random bool) {
 			}
 		}
 		if err == nil {
-			t, err = in.Init(shape)
+			t, err = shared(in).Init(shape)
 		}
 	case "heuniform":
 		cf := &initializers.HeUniformConfig{FanIn: int(f(0))}
@@ -289,7 +326,7 @@ func c18draw(st sim.Step) (t tensor.Tensor, err error, p pool18, random bool) {
 		}
 		err = e
 		if err == nil {
-			t, err = in.Init(shape)
+			t, err = shared(in).Init(shape)
 		}
 		r := math.Sqrt(6 / f(0))
 		p.lo, p.hi, p.unif = -r, r, true
@@ -301,7 +338,7 @@ func c18draw(st sim.Step) (t tensor.Tensor, err error, p pool18, random bool) {
 		}
 		err = e
 		if err == nil {
-			t, err = in.Init(shape)
+			t, err = shared(in).Init(shape)
 		}
 		p.mu, p.sd = 0, math.Sqrt(2/f(0))
 	case "xavieruniform":
@@ -312,7 +349,7 @@ func c18draw(st sim.Step) (t tensor.Tensor, err error, p pool18, random bool) {
 		}
 		err = e
 		if err == nil {
-			t, err = in.Init(shape)
+			t, err = shared(in).Init(shape)
 		}
 		r := math.Sqrt(6 / (f(0) + f(1)))
 		p.lo, p.hi, p.unif = -r, r, true
@@ -324,7 +361,7 @@ func c18draw(st sim.Step) (t tensor.Tensor, err error, p pool18, random bool) {
 		}
 		err = e
 		if err == nil {
-			t, err = in.Init(shape)
+			t, err = shared(in).Init(shape)
 		}
 		p.mu, p.sd = 0, math.Sqrt(2/(f(0)+f(1)))
 	case "randu":
@@ -371,6 +408,17 @@ func (prop c18) Execute(sc *sim.Scenario) *sim.Outcome {
 	sim.Resume()
 	out.Faults["reseed (seam self-test)"]++
 	sim.SeedLibraryRNG(seed)
+	var bufs map[int][]int
+	if sc.Cfg["reusebuf"] == 1 {
+		bufs = map[int][]int{}
+		out.Faults["caller-reuses-one-shape-slice"]++
+	}
+	var handed []tensor.Tensor // every tensor handed out so far in this run
+	var objs map[string]initer
+	if sc.Cfg["reuseinit"] == 1 {
+		objs = map[string]initer{}
+		out.Faults["one-initializer-object-for-many-calls"]++
+	}
 	pools := map[string]*pool18{}
 	var poolOrder []string
 	var seen []uint64
@@ -393,7 +441,7 @@ func (prop c18) Execute(sc *sim.Scenario) *sim.Outcome {
 				continue
 			}
 			for rep := 0; rep < 2; rep++ {
-				t, err, _, _ := c18draw(st)
+				t, err, _, _ := c18draw(st, bufs, objs)
 				if err != nil && err.Error() == "malformed" {
 					out.Discard = "malformed"
 					return out
@@ -412,7 +460,7 @@ func (prop c18) Execute(sc *sim.Scenario) *sim.Outcome {
 			return out
 		}
 		sig = sig.Str(st.Tag)
-		t, err, p, random := c18draw(st)
+		t, err, p, random := c18draw(st, bufs, objs)
 		if st.N == 1 {
 			out.Faults["alias-scribble/config-struct"]++
 		}
@@ -424,6 +472,13 @@ func (prop c18) Execute(sc *sim.Scenario) *sim.Outcome {
 			out.Fail("valid-call-rejected", "%s: returned error %v", where, err)
 			return fin()
 		}
+		for j, e := range handed {
+			if e == t {
+				out.Fail("returned-earlier-tensor", "%s: returned the very tensor object already handed out earlier in this run (result #%d) (tracked tensors carry gradient state: two holders of one object interfere)", where, j)
+				return fin()
+			}
+		}
+		handed = append(handed, t)
 		sim.Pause()
 		shape := st.I
 		if shape == nil {
